@@ -98,10 +98,12 @@ def field_source(t, xparam):
             return ("pieces", inner[2][1])
     if t == ("param", "config"):
         return ("config",)
-    # pickle.loads(...) possibly projected
+    # pickle.loads(...) possibly projected (tuple unpacking) or indexed with a constant
     base, idx = t, None
     if t[0] == "proj":
         base, idx = t[1], t[2]
+    elif t[0] == "sub" and len(t) == 3 and t[2][0] == "const" and isinstance(t[2][1], int) and t[1][0] == "call" and t[1][1] == "pickle.loads":
+        base, idx = t[1], t[2][1]
     if base[0] == "call" and base[1] == "pickle.loads" and base[2]:
         src = base[2][0]
         return ("loads", idx, src)
@@ -182,6 +184,12 @@ def check(repo):
                 continue
             xparam = de.params[1]
             for args, call, node in calls:
+                # cls(seq[0], seq[1], .., seq[n-1], ...) with every element of one sequence in order is cls(*seq, ...)
+                subs_ = [a for a in args if a[0] == "sub" and len(a) == 3 and a[2][0] == "const" and isinstance(a[2][1], int) and a[1][0] in ("comp", "cont", "call")
+                         and not (a[1][0] == "call" and a[1][1] == "pickle.loads")]
+                if len(subs_) >= 2 and len({repr(a[1]) for a in subs_}) == 1 and [a[2][1] for a in subs_] == list(range(len(subs_))) and \
+                        list(args[:len(subs_)]) == subs_:
+                    args = [("star", subs_[0][1])] + list(args[len(subs_):])
                 srcs = [field_source(a, xparam) for a in args]
                 data_srcs = [x for x in srcs if x is not None and x[0] != "config"]
                 desc = {"class": ci.key, "format": fmt, "fields": names}
